@@ -111,6 +111,7 @@ type Config struct {
 	Deadline   time.Time
 	Verbose    bool
 	NoBlockVio bool // a blocked channel operation is not a violation (still ends the path)
+	MaxTokens  int               // bound on strings.Fields of an atom (default 9)
 	Vars       map[string]string // integer package variables of the harness (bounds) to set after init
 }
 
@@ -170,6 +171,11 @@ type worker struct {
 	panicStack []string
 	panicAt    string
 	local      *localCtx
+	auxBV      []*Term
+	auxStr     []*Term
+	nstr       int
+	fieldsMemo map[*Term][]value
+	splitMemo  map[splitKey][]value
 	noMerge    bool
 	merged     int
 }
@@ -291,6 +297,7 @@ func (ex *explorer) runWorker(id int, fn *ssa.Function) {
 				return
 			}
 			w = &worker{ex: ex, s: s, fcov: map[*ssa.Function]map[ssa.Instruction]bool{}, stubs: map[string]int{}, sideInit: map[*value]*omap{}, side: map[*value]*omap{}, held: map[*value]bool{}}
+			s.aux = func() ([]*Term, []*Term) { return w.auxBV, w.auxStr }
 			w.i = newInterpreter(ex.cfg.Prog, w)
 			if msg := w.i.runInits(ex.cfg); msg != "" {
 				ex.inconclusive("package initialisation: " + msg)
@@ -378,6 +385,11 @@ func (w *worker) runPath(fn *ssa.Function, it *workItem) {
 	w.panicStack = nil
 	w.panicAt = ""
 	w.local = nil
+	w.auxBV = nil
+	w.auxStr = nil
+	w.nstr = 0
+	w.fieldsMemo = map[*Term][]value{}
+	w.splitMemo = map[splitKey][]value{}
 	if w.sideInit == nil {
 		w.sideInit = map[*value]*omap{}
 	}
@@ -408,7 +420,7 @@ func (w *worker) runPath(fn *ssa.Function, it *workItem) {
 				w.ex.inconclusive(p.reason)
 			case engineErr:
 				outcome = "inconclusive"
-				w.ex.inconclusive("unsupported: " + p.msg + " @ " + w.where())
+				w.ex.inconclusive("unsupported: " + p.msg + " @ " + w.where() + " <- " + strings.Join(w.i.stackTrace(), " < "))
 			case targetPanic:
 				outcome = "violation"
 				w.violation("panic", "panic", "panic: "+toString(p.v))
@@ -600,6 +612,9 @@ func (w *worker) decide(c *Term) bool {
 			r2, m2 := w.s.check(mkNot(c), w.inputs, true)
 			if r2 != resSat {
 				if r2 == resUnsat {
+					if debugTrace {
+						os.WriteFile(fmt.Sprintf("/tmp/pcunsat.%d.smt2", time.Now().UnixNano()), []byte(strings.Join(w.s.trace, "\n")), 0o644)
+					}
 					panic(pathInconclusive{"path condition became unsatisfiable @ " + w.where()})
 				}
 				w.unknown("branch")
